@@ -34,6 +34,57 @@ json.dump(out, open(sys.argv[2], "w"))
 '''
 
 
+FRESH_FORMS = r'''
+import json, sys
+sys.path.insert(0, %r)
+import oneliner
+from oneliner.config import Configs
+jobs = json.load(open(sys.argv[1]))
+out = []
+for src, (u, w, i) in jobs:
+    c = Configs(); c.unparser = u; c.expr_wrapper = w; c.if_style = i
+    try:
+        out.append(oneliner.convert_code_string(src, configs=c))
+    except BaseException as e:
+        out.append("!" + type(e).__name__)
+json.dump(out, open(sys.argv[2], "w"))
+'''
+
+
+def forms_determinism(ck):
+    """every statement form of the catalogue converted in fresh processes that differ only in PYTHONHASHSEED:
+    the texts must agree (up to the renaming of __ol_ temporaries).  Returns a list of failures."""
+    import forms, shutil
+    progs = [(n, s) for n, s in forms.programs() if n.rsplit("@", 1)[1] in ("module", "function", "class", "method", "nested-function")
+             and forms.compilable(s)]
+    if ck.tier == "quick":
+        progs = [p for i, p in enumerate(progs) if (i + ck.seed) % 2 == 0]
+    jobs = [(s, list(gen_prog.CONFIGS[(i + ck.seed) % 8])) for i, (n, s) in enumerate(progs)]
+    d = tempfile.mkdtemp(prefix="olverif_c10f_")
+    outs = {}
+    try:
+        pin = os.path.join(d, "in.json")
+        json.dump(jobs, open(pin, "w"))
+        for hs in (1 + ck.seed, 7919 + ck.seed, 424242 + ck.seed):
+            pout = os.path.join(d, f"out{hs}.json")
+            r = subprocess.run([PY, "-c", FRESH_FORMS % REPO, pin, pout], capture_output=True, text=True, env=dict(os.environ, PYTHONHASHSEED=str(hs)))
+            if r.returncode != 0:
+                raise RuntimeError("fresh process failed: " + r.stderr[-800:])
+            outs[hs] = [normalise(t) for t in json.load(open(pout))]
+    finally:
+        shutil.rmtree(d, ignore_errors=True)
+    fails = []
+    seeds = sorted(outs)
+    for i, (n, s) in enumerate(progs):
+        ck.case(f"forms-determinism|{jobs[i][1]}|{s}")
+        ck.count("forms_determinism_programs")
+        for hs in seeds[1:]:
+            if outs[hs][i] != outs[seeds[0]][i]:
+                fails.append((n, s, jobs[i][1], seeds[0], hs, outs[seeds[0]][i], outs[hs][i]))
+                break
+    return fails
+
+
 def fresh_table(progs, per_conversion=False):
     """the function F(p, opts), computed in fresh interpreter processes"""
     d = tempfile.mkdtemp(prefix="olverif_c10_")
@@ -177,6 +228,14 @@ def main(argv):
             elif mo is not None and mo[k] != ro:
                 k_bad.append((h, k, f"model outcome {mo[k]} != real outcome {ro}"))
     random.setstate(saved_state)
+    try:
+        det_fails = forms_determinism(ck)
+    except Exception as e:
+        ck.broken.append("hash-seed comparison could not be run: " + str(e)[:400]); det_fails = []
+    det_fails.sort(key=lambda f: len(f[1]))
+    for n, s, cfg, hs0, hs1, t0, t1 in det_fails[:2]:
+        ck.violation({"kind": "hash-seed", "case": n, "source": s, "config": cfg, "hash_seeds": [hs0, hs1], "observed": "texts differ: " + t0[-300:] + "  VS  " + t1[-300:],
+                      "expected": "the same text (up to renaming of __ol_ temporaries) in every fresh process", "broken_obligations": ck.broken})
     if k_bad:
         ck.broken.append(f"correspondence K(api model = real API): {len(k_bad)} histories differ, first: {k_bad[0][2]} in {k_bad[0][0]}")
     failing.sort(key=lambda f: len(f[0]))
@@ -184,20 +243,30 @@ def main(argv):
         ck.violation({"kind": "history", "history": h, "programs": progs, "observed": why,
                       "expected": "every conversion equals the same call made in a fresh process (up to renaming of __ol_ temporaries)",
                       "broken_obligations": ck.broken})
-    if ck.broken and not failing:
+    if ck.broken and not failing and not det_fails:
         ck.violation({"kind": "obligation", "broken_obligations": ck.broken,
                       "searched": f"{len(hists)} random histories on the real API: every conversion equals the fresh-process result"}, no_input=True)
     return ck.finish(
         rule="random histories (length 1-8) over {new, set (legal and illegal values, existing and missing objects), convert, convertDefault, reseed} on a pool of "
              "generated programs; every conversion compared (after first-occurrence renaming of __ol_ names) with the same call made in a fresh interpreter "
              "process (quick: one fresh process for the whole table with a random hash seed; thorough: one per program); distinct by history; "
-             "non-trivial = at least two set/convert actions",
-        extra={"R_failures": len(failing), "K_disagreements": len(k_bad), "histories": len(hists), "programs": nprogs},
+             "non-trivial = at least two set/convert actions; plus every statement form of harness/forms.py at 5 placements converted in three fresh processes "
+             "that differ only in PYTHONHASHSEED",
+        extra={"R_failures": len(failing) + len(det_fails), "K_disagreements": len(k_bad), "histories": len(hists), "programs": nprogs},
         assumptions=["F(p, opts) itself (the conversion) is modelled elsewhere (M-LOWER); here it is the fresh-process result"])
 
 
 def replay(ck, ol):
     r = json.load(open(ck.replay_file))
+    if r.get("kind") == "hash-seed":
+        outs = []
+        for hs in r["hash_seeds"]:
+            code = ("import sys; sys.path.insert(0, %r); import oneliner; from oneliner.config import Configs; c = Configs(); "
+                    "c.unparser, c.expr_wrapper, c.if_style = %r; print(oneliner.convert_code_string(%r, configs=c))" % (REPO, tuple(r["config"]), r["source"]))
+            p = subprocess.run([PY, "-c", code], capture_output=True, text=True, env=dict(os.environ, PYTHONHASHSEED=str(hs)))
+            outs.append(normalise(p.stdout))
+        print(r["source"]); print("texts equal across hash seeds:", outs[0] == outs[1])
+        return 0 if outs[0] == outs[1] else 1
     if "history" not in r:
         print("replay file names a broken obligation, no input:", r.get("broken_obligations")); return 0
     progs = r["programs"]
